@@ -7,6 +7,7 @@ import (
 	"encoding/json"
 	"fmt"
 	"os"
+	"path/filepath"
 	"regexp"
 	"strconv"
 	"time"
@@ -140,6 +141,8 @@ type Case struct {
 	// Empty: the layout has neither steps nor inspections (nothing else to verify); Named: a summary name is passed
 	Empty bool `json:"empty_layout,omitempty"`
 	Named bool `json:"summary_name,omitempty"`
+	// FromFile: the signed layout is written to a file and loaded back (as the command-line tools do) before it is verified
+	FromFile bool `json:"layout_loaded_from_file,omitempty"`
 }
 
 func silence() func() {
@@ -160,6 +163,16 @@ func execute(c *mcx.Ctx, cs Case) (acc []bool, markers []int) {
 	md, err := gen.Wrap(sup.Layout, cs.DSSE, owner.Full)
 	if err != nil {
 		return []bool{false}, []int{0}
+	}
+	if cs.FromFile {
+		p := filepath.Join(c.Work, "from-file.layout")
+		os.Remove(p)
+		if err := md.Dump(p); err != nil {
+			return []bool{false}, []int{0}
+		}
+		if md, err = intoto.LoadMetadata(p); err != nil {
+			return []bool{false}, []int{0}
+		}
 	}
 	keys := map[string]intoto.Key{owner.ID: owner.Pub}
 	clocks := cs.Clock
@@ -242,6 +255,9 @@ func judge(c *mcx.Ctx, cs Case) (obs, sig, class string) {
 	if cs.Named {
 		wr += "|summary-name-given"
 	}
+	if cs.FromFile {
+		wr += "|loaded-from-file"
+	}
 	for i := range acc {
 		now := time.Now().UTC()
 		if len(cs.Clock) > 0 {
@@ -316,6 +332,7 @@ func run(c *mcx.Ctx) {
 				do(Case{Expires: e.Text, Class: e.Class, DSSE: dsse, Entry: entry, Clock: []string{ts}, Params: true})
 				do(Case{Expires: e.Text, Class: e.Class, DSSE: dsse, Entry: entry, Clock: []string{ts}, Empty: true})
 				do(Case{Expires: e.Text, Class: e.Class, DSSE: dsse, Entry: entry, Clock: []string{ts}, Named: true})
+				do(Case{Expires: e.Text, Class: e.Class, DSSE: dsse, Entry: entry, Clock: []string{ts}, FromFile: true})
 			}
 			// 2. clock histories on one process: every sequence of <= 3 instants over {T-1h, T, T+1h} x two expiries in between
 			inst := []string{T.Add(-time.Hour).Format(time.RFC3339), ts, T.Add(time.Hour).Format(time.RFC3339)}
